@@ -104,3 +104,53 @@ func H_C02_seq() {
 	}
 	vReach("c02-done")
 }
+
+// H_C02M: several operations on ONE key inside one epoch (put, delete, re-put, re-delete ... through either of two
+// writers), over 'epochs' epochs with a snapshot after each; every older snapshot stays open so earlier versions
+// of the key remain physically present. Results, ItemsCount, Count() and the content of every snapshot (old ones
+// re-scanned after each epoch) are compared with the reference set. A second, untouched key brackets the scans.
+func H_C02M() {
+	cfg, c := vConfig()
+	db := NewWithConfig(cfg)
+	ws := vWriters(db, 2)
+	E := vBound("epochs")
+	S := vBound("slots")
+	key, other := vByte("key", 0), vByte("key", 1)
+	vAssume(key != other)
+	var model vSetModel
+	n := ws[0].Put2(c.item(other, 7))
+	vAssert((n != nil) == model.put(int(other), c.val(7)), "Put result")
+	var snaps [4]*Snapshot
+	var ghosts [4]vSetModel
+	for e := 0; e < E; e++ {
+		for s := 0; s < S; s++ {
+			slot := e*4 + s
+			act := vChoice("act", slot, 5) // 0 none, 1/2 Put by writer 0/1, 3/4 Delete by writer 0/1
+			if act == 0 {
+				continue
+			}
+			w := ws[(act-1)%2]
+			if act <= 2 {
+				v := vByte("val", slot)
+				n := w.Put2(c.item(key, v))
+				vAssert((n != nil) == model.put(int(key), c.val(v)), "Put result")
+			} else {
+				ok := w.Delete(c.item(key, 0))
+				vAssert(ok == model.del(int(key)), "Delete result")
+				if ok && s > 0 {
+					vReach("delete-after-earlier-op-in-epoch")
+				}
+			}
+		}
+		sn, err := db.NewSnapshot()
+		vAssert(err == nil && sn != nil, "NewSnapshot succeeds")
+		vAssert(db.ItemsCount() == int64(model.count()), "ItemsCount equals reference set size")
+		snaps[e], ghosts[e] = sn, model
+		// newest first: a scan unlinks marked nodes it walks over, so scanning an older snapshot first could repair
+		// what the new snapshot would otherwise show
+		for x := e; x >= 0; x-- {
+			vScanCheck(db, c, snaps[x], &ghosts[x], "snapshot content equals the reference set at its creation")
+		}
+	}
+	vReach("c02m-done")
+}
